@@ -23,7 +23,8 @@ VARIABLES pre,    \* state before the last event
           gh      \* ghosts
 
 InitEv == [step |-> "Init", conn |-> 0, req |-> [k |-> "none"], given |-> [k |-> "none"], proc |-> FALSE,
-           sid |-> 0, ret |-> "ok", out |-> NoOut, dead |-> {}, obsOK |-> TRUE]
+           sid |-> 0, ret |-> "ok", out |-> NoOut, dead |-> {}, obsOK |-> TRUE,
+           paired |-> FALSE, fl |-> {}, out0 |-> NoOut, same0 |-> TRUE]
 
 IsStep  == ev.step # "Init"
 Actor   == ev.conn
@@ -493,6 +494,16 @@ Ok_C16 ==
           pre.sess[s].uuid = cur.sess[s].uuid =>
           \A k \in (DOMAIN pre.sess[s].acts) \cap (DOMAIN cur.sess[s].acts) :
              cur.sess[s].acts[k].ts >= pre.sess[s].acts[k].ts
+
+(***************************************************************************)
+(* C17  each DISABLE_* flag suppresses exactly its own message class       *)
+(*      (paired runs: the same history on the real code under flag set     *)
+(*       ev.fl and under no flag; ev.out / cur are the flagged run)        *)
+(***************************************************************************)
+Ok_C17 ==
+  IsStep /\ ev.paired =>
+    /\ ev.same0                                           \* same state, same handler result
+    /\ \A c \in Conns : ev.out[c] = FilterSeq(ev.fl, ev.out0[c])
 
 (***************************************************************************)
 (* C20 (retention clause): the ground-plane index lives as long as the     *)
